@@ -446,8 +446,17 @@ Clause(c) ==
 Init == i = 1
 Next == i < Len(Cases) /\ i' = i + 1
 \* a returned float that is not on the exact lattice (listed in c.off) cannot be the exact value
+\* Second half of a round trip whose first half (the matrix the implementation produced and that
+\* was fed back in) is already rejected in its own record: not judged again.
+Upstream(c) ==
+    CASE c.fn = "decompose_matrix" -> ~(Angs3Ok(c.ang) /\ REq(c.M, ComposeRef(c.s4, c.sh4, c.ang, c.tr4)))
+      [] c.fn = "euler_from_matrix" /\ c.src = "euler" ->
+             ~(Angs3Ok(c.ang) /\ c.axes \in ConvNames /\ PureRot4(c.M) /\ REq(RSub(c.M, 3), EulerRef(c.axes, c.ang)))
+      [] c.fn = "planar_matrix_to_3D" -> ~IsAffine(c.M2, 2)
+      [] OTHER -> FALSE
 Report == LET c == Cases[i]
-              cl == IF c.exc # "" THEN "raised_" \o c.exc
+              cl == IF Upstream(c) THEN "SKIP_upstream_result_already_rejected"
+                    ELSE IF c.exc # "" THEN "raised_" \o c.exc
                     ELSE IF Len(c.off) > 0 THEN "offlattice_" \o c.off[1].where
                     ELSE Clause(c)
           IN IF cl # "ok" THEN PrintT(<<"REJECT", c.id, cl>>) ELSE TRUE
